@@ -76,12 +76,16 @@ def batch_createdat(ctx, prop: str, n: int | None = None):
                 viol("pickle", f"cannot be pickled: {type(e).__name__}: {str(e)[:100]}", i)
         if prop == "C07":
             outs = {}
+            # (the graphs built with the switch on are also PROCESSED with it on, as a user who enabled it would)
             for nm, g in (("off", g0), ("on", g1), ("on-other-site", g2)):
                 try:
+                    set_traceback_tag_enabled(nm != "off")
                     prog = pt.generate_loopy(g)
                     outs[nm] = ("kernel", json.dumps(cexec.canonical_dump(prog.program), sort_keys=True, default=str))
                 except Exception as e:   # noqa: BLE001
-                    outs[nm] = ("error", type(e).__name__)
+                    outs[nm] = ("error", type(e).__name__ + ": " + str(e)[:60])
+                finally:
+                    set_traceback_tag_enabled(False)
             if len(set(outs.values())) != 1:
                 viol("generated-loopy-code", "the generated kernel depends on the creation stacks: " +
                      ", ".join(f"{k}={v[0]}:{v[1][:40] if v[0] == 'error' else hash(v[1]) % 10**6}" for k, v in outs.items()), i)
@@ -89,9 +93,12 @@ def batch_createdat(ctx, prop: str, n: int | None = None):
             pys = {}
             for nm, g in (("off", g0), ("on", g1)):
                 try:
+                    set_traceback_tag_enabled(nm != "off")
                     pys[nm] = pytarget.generate(g).program
                 except Exception as e:   # noqa: BLE001
                     pys[nm] = "error:" + type(e).__name__
+                finally:
+                    set_traceback_tag_enabled(False)
             if pys["off"] != pys["on"]:
                 viol("generated-python", "the generated Python source depends on the creation stacks", i)
                 continue
@@ -100,11 +107,14 @@ def batch_createdat(ctx, prop: str, n: int | None = None):
                            ("unify_axes_tags", pt.unify_axes_tags), ("tag_all_calls_to_be_inlined", pt.tag_all_calls_to_be_inlined),
                            ("inline_calls", pt.inline_calls)):
                 res = []
-                for g in (g0, g1):
+                for on, g in ((False, g0), (True, g1)):
                     try:
+                        set_traceback_tag_enabled(on)
                         res.append(("ok", tf(g)))
                     except Exception as e:   # noqa: BLE001
                         res.append(("error", type(e).__name__ + ": " + str(e)[:80]))
+                    finally:
+                        set_traceback_tag_enabled(False)
                 if res[0][0] != res[1][0] or (res[0][0] == "ok" and not has_dw and res[0][1] != res[1][1]):
                     viol(f"transformation:{tn}", f"{tn} behaves differently with traceback tags: "
                          f"{res[0][0]} / {res[1][0]} {res[1][1] if res[1][0] == 'error' else ''}", i)
